@@ -292,6 +292,8 @@ func (e *Environment) Get(name string) (Object, bool) {
 	if ref, ok := e.makeRef(name); ok {
 		return *ref, true
 	}
+	// Not found anywhere: whether it exists depends on the outer scopes, which can change (the result can't be cached).
+	e.getMiss++
 	return nil, false
 }
 
